@@ -197,6 +197,7 @@ def run(ctx):
     uni = list(build.expr_universe("circuit", sig, doms, depth, width))
     if ctx.quick:
         uni = [r for r in uni if len(r[2]) <= 1] + [r for r in uni if len(r[2]) == 2][::5]
+        ctx.cap_hit("circuits of depth 2 every 5th (depth <= 1 complete)")
     elif depth == 3:
         uni = [r for r in uni if len(r[2]) <= 2] + [r for r in uni if len(r[2]) == 3][::40]
         ctx.cap_hit("depth-3 circuits enumerated with stride 40 (all depth <= 2 complete)")
